@@ -224,6 +224,12 @@ class Gen:
             return "f'[{" + self.int_expr(sc, d+1) + spec + "}]'"
         if c < 0.86:
             return f'({self.str_expr(sc, d+1)} + {self.str_expr(sc, d+1)})'
+        if c < 0.88:
+            # string literals inside a replacement field *nested in a format spec* (fill / align characters chosen at run time)
+            self.features.add('fstring-spec-field-with-literal')
+            w = r.randint(3, 6)
+            return ('f"{' + self.int_expr(sc, d+1) + ":{'>' if " + self.bool_expr(sc, d+1) + " else '<'}{" + str(w) + '}}|{' + self.int_expr(sc, d+1)
+                    + ":{'0'}{" + str(w) + "}d}|{'x':{'*'}^{" + str(w) + '}}"')
         if c < 0.9:
             self.features.add('fstring-nested-quote')
             return 'f"{ ' + "{'k': " + self.int_expr(sc, d+1) + "}['k']" + '!r:>{' + str(r.randint(1, 4)) + '}}"'
@@ -409,7 +415,22 @@ class Gen:
     def s_nestunpack(self, sc, ind, depth):
         self.features.add('nested-destructure')
         a, b, c, d = (self.fresh() for _ in range(4))
-        if self.r.random() < 0.5:
+        k = self.r.random()
+        if k < 0.25:
+            # a star *before* a nested pattern, more targets behind it, value longer than the target list
+            self.features.add('star-then-nested-then-target')
+            self.emit(ind, f'*{d}, ({a}, {b}), {c} = [1, 2, {self.int_expr(sc)}, ({self.int_expr(sc)}, {self.int_expr(sc)}), {self.int_expr(sc)}]')
+        elif k < 0.4:
+            self.features.add('star-then-nested-then-target')
+            e = self.fresh()
+            self.emit(ind, f'for *{d}, [{a}, *{e}], {b}, {c} in [(0, 1, [2, 3, 4], 5, {self.int_expr(sc)}), ([6], 7, 8)]:')
+            self.emit(ind + 1, f'print({d}, {a}, {e}, {b}, {c})')
+        elif k < 0.5:
+            self.features.add('star-then-nested-then-target')
+            e = self.fresh()
+            self.emit(ind, f'{a}, ({b}, *{e}), *{d} = {self.int_expr(sc)}, ({self.int_expr(sc)}, 8, 9), 10, 11')
+            self.emit(ind, f'{c} = len({e}) + len({d})')
+        elif k < 0.75:
             self.emit(ind, f'({a}, {b}), [{c}, *{d}] = ({self.int_expr(sc)}, {self.int_expr(sc)}), {self.list_expr(sc)} + [5]')
         else:
             self.emit(ind, f'{a}, ({b}, *{d}), {c} = {self.int_expr(sc)}, iter({self.list_expr(sc)} + [7]), {self.int_expr(sc)}')
@@ -810,7 +831,26 @@ class Gen:
         sc.vars[i] = INT
         sc.protected.add(i)
         before = dict(sc.vars); fbefore = dict(sc.funcs)
-        if self.r.random() < 0.3:
+        kq = self.r.random()
+        if kq < 0.15:
+            # the test itself consumes something: evaluating it once too often (after a break / return) is visible
+            self.features.add('while-test-with-side-effect')
+            q = self.fresh('wq')
+            self.emit(ind, f'{q} = [3, 2, {self.r.randint(0, 2)}, 1, 0, 7, 0, 9]')
+            self.emit(ind, f'while {q}.pop(0):')
+            self.emit(ind + 1, f'{i} += 1')
+            self.emit(ind + 1, f'if {i} == {self.r.randint(1, 3)}:')
+            self.emit(ind + 2, 'break' if self.r.random() < 0.7 or sc.kind != 'func' else f'return len({q})')
+            sc.loop_depth += 1
+            self.block(sc, ind + 1, depth - 1)
+            sc.loop_depth -= 1
+            sc.vars = dict(before); sc.funcs = dict(fbefore)
+            if self.r.random() < 0.3:
+                self.emit(ind, 'else:')
+                self.emit(ind + 1, f"print('exhausted', {q})")
+            self.emit(ind, f'print({q}, {i})')
+            return
+        if kq < 0.4:
             # the loop variable is advanced by an assignment expression in the test itself
             self.features.add('walrus-in-while-test')
             self.emit(ind, f'while ({i} := {i} + 1) <= {self.r.randint(1, 4)}:')
